@@ -18,6 +18,8 @@
 (* A container is one top-level declaration with one tagged reference:     *)
 (*    callF d.PF(), funcValue d.PF -> PKGO02 (every reference)             *)
 (*    methCall s.PM(), methValue s.PM -> PKGO03 (every reference)          *)
+(*    methCallVar gs.PM() on a package-level variable declared in another  *)
+(*    file (the referencing file does not import d) -> PKGO03              *)
 (*    typeLit, typeVar, typeField, typeParam, typeResult (PT), typeLit2    *)
 (*    (PT2) -> PKGO01 once per file and type;  plain -> un-annotated item  *)
 (*                                                                         *)
@@ -34,7 +36,7 @@ VARIABLES prog, fi, ci, ph, reported, diags
 vars == <<prog, fi, ci, ph, reported, diags>>
 
 Shapes == {"none", "bare", "name", "path", "lastelem", "other", "two_in", "two_out", "dup"}
-Refs == {"callF", "funcValue", "methCall", "methValue", "typeLit", "typeVar", "typeField", "typeParam", "typeResult",
+Refs == {"callF", "funcValue", "methCall", "methCallVar", "methValue", "typeLit", "typeVar", "typeField", "typeParam", "typeResult",
          "typeLit2", "plain"}
 TypeRefs == {"typeLit", "typeVar", "typeField", "typeParam", "typeResult", "typeLit2"}
 Pkgs == {"d", "u", "v"}
@@ -79,7 +81,7 @@ ShapeOf(r0, al) == LET r == Base(r0) IN IF r = "typeLit2" THEN "bare" ELSE IF r 
 Allowed(P, ls) == P = "d" \/ PathOf(P) \in Union(ls) \/ NameOf(P) \in Union(ls)
 
 CodeOf(r0) == LET r == Base(r0) IN
-             CASE r \in {"callF", "funcValue"} -> "PKGO02" [] r \in {"methCall", "methValue"} -> "PKGO03"
+             CASE r \in {"callF", "funcValue"} -> "PKGO02" [] r \in {"methCall", "methCallVar", "methValue"} -> "PKGO03"
                [] r \in TypeRefs -> "PKGO01" [] OTHER -> "none"
 
 Cand(r, al, P) == IF ShapeOf(r, al) # "none" /\ CodeOf(r) # "none" /\ ~Allowed(P, Lines(ShapeOf(r, al), P)) THEN CodeOf(r) ELSE "none"
@@ -94,7 +96,7 @@ Reported(p, f, i) ==
      /\ (code = "PKGO01" => \A j \in 1..(i - 1) : ~(Cand(p.files[f][j], p.al, p.pkg) = "PKGO01" /\ TypeOf(p.files[f][j]) = TypeOf(r)))
 L1(p) == {<<k[1], k[2], Cand(p.files[k[1]][k[2]], p.al, p.pkg)>> : k \in {k \in Keys(p) : Reported(p, k[1], k[2])}}
 
-SeqRefs == {"typeLit", "typeVar", "typeParam", "typeLit2", "callF", "methCall"}
+SeqRefs == {"typeLit", "typeVar", "typeParam", "typeLit2", "callF", "methCall", "methCallVar"}
 
 InitProg ==
   \/ /\ Mode = "single"
